@@ -10,7 +10,9 @@ git -C /repo worktree add -q --detach "$WT" HEAD || exit 9
 git -C "$WT" apply "$S/patch.diff" || { git -C /repo worktree remove --force "$WT"; exit 9; }
 case " $* " in *" --only "*) KEEP=0;; *) KEEP=1;; esac   # with --only the runner writes no evidence: nothing to protect
 [ $KEEP = 1 ] && cp /verif/evidence/$ID.json /tmp/evidence_$ID.$$.json 2>/dev/null
+[ $KEEP = 1 ] && for t in quick thorough; do cp /verif/evidence_by_tier/$t/$ID.json /tmp/evidence_${t}_$ID.$$.json 2>/dev/null; done
 ( cd /verif && VERIF_REPO="$WT" PYTHONPATH="$WT/src" ./check "$ID" "$@" ); rc=$?
 [ $KEEP = 1 ] && cp /tmp/evidence_$ID.$$.json /verif/evidence/$ID.json 2>/dev/null; rm -f /tmp/evidence_$ID.$$.json
+[ $KEEP = 1 ] && for t in quick thorough; do cp /tmp/evidence_${t}_$ID.$$.json /verif/evidence_by_tier/$t/$ID.json 2>/dev/null; rm -f /tmp/evidence_${t}_$ID.$$.json; done
 git -C /repo worktree remove --force "$WT"
 echo "exit=$rc"
